@@ -1,11 +1,11 @@
-"""mh update T-route (tools/gen_mhupdate.py -> Gen/MhUpdate.lean -> GenProps/MhUpdate.lean), used by C05."""
+"""mh update T-route (tools/gen_mhupdate.py -> Gen/MhUpdate.lean -> GenProps/MhUpdate.lean), used by C05 and C10."""
 import os, re, sys
 sys.path.insert(0, os.path.dirname(os.path.abspath(__file__)))
 import vlib, gen_mhupdate
 
 THMS_TAIL = ["IsalVerif.GenProps.MhTail.all_canon", "IsalVerif.GenProps.MhTail.all_count", "IsalVerif.GenProps.MhTail.mhtail_current",
              "IsalVerif.MhTailC.canon_tail", "IsalVerif.MhTailC.tailBlocks_is_standard", "IsalVerif.GenProps.MhTail.mhtail_is_standard"]
-THMS = ["IsalVerif.GenProps.MhUpdate.all_canon", "IsalVerif.GenProps.MhUpdate.all_count",
+THMS = ["IsalVerif.GenProps.MhUpdate.all_canon", "IsalVerif.GenProps.MhUpdate.all_count", "IsalVerif.GenProps.MhUpdate.stitched_present",
         "IsalVerif.GenProps.MhUpdate.mhupdate_current", "IsalVerif.MhC.canon_mh_update", "IsalVerif.MhC.mhSpec_absorb",
         "IsalVerif.GenProps.MhUpdate.mhupdate_absorbs"]
 
@@ -17,7 +17,7 @@ def obligations(chk, tier):
         gen_err = ""
     except Exception as e:
         rows, gen_err = [], str(e)[:300]
-    chk.oblige("translator: %d instances of the mh_sha1 / mh_sha256 update template -> Gen/MhUpdate.lean" % len(rows), bool(rows) and not gen_err, gen_err)
+    chk.oblige("translator: %d instances of the mh_sha1 / mh_sha256 / stitched mh_sha1_murmur3 update template -> Gen/MhUpdate.lean" % len(rows), bool(rows) and not gen_err, gen_err)
     failed = vlib.lean_obligations(chk, "IsalVerif.GenProps.MhUpdate", THMS) if rows else [("gen_mhupdate", gen_err)]
     chk.cov["mh_update"] = {"functions": len(rows), "theorems": THMS}
     try:
